@@ -54,6 +54,17 @@ def step (d : DSt) (ws : List String) : DSt × String :=
       ({ s := some s2 },
         if found then s!"some {",".intercalate (ys.map toString)} n={s2.notified}" else s!"none n={s2.notified}")
     | none => (d, "bad-op")
+  | ["discard"], some s =>
+    -- `discard_scheduled`: nothing to do when the head is EMPTY with no countdown; otherwise `take_scheduled(0)` and the
+    -- iterator's drop
+    let s1 := if s.head.ix.isNone && s.head.cd == 0 then s else run s (.take 0)
+    let rec dropAll : Nat → St → St
+      | 0, s => s
+      | fuel + 1, s => match s.cur with
+        | none => s
+        | some _ => dropAll fuel (run s .dropNext)
+    let s2 := dropAll (s.n + 1) s1
+    ({ s := some s2 }, s!"- has={s2.head.ix.isSome}")
   | ["has"], some s => (d, s!"{s.head.ix.isSome}")
   | _, _ => (d, "bad-op")
 
